@@ -23,13 +23,35 @@ for k in sorted(pinned):
     rows.append("| %s | %s |" % (k, pinned[k]))
 rows.append("\nC04, C07, C08, C13, C14, C15, C18 held on the pinned tree (no defect of theirs is known).\n")
 
-rows.append("### Reverse patches of the `fix:` commits (mutants/), applied to the current tree\n")
+rows.append("### Reverse patches of the `fix:` commits (mutants/revert-*), applied to the current tree\n")
 rows.append("| mutant | own property | caught by (quick) |\n|---|---|---|")
-for d in sorted(glob.glob("/verif/mutants/*")):
+for d in sorted(glob.glob("/verif/mutants/revert-*")):
     r = os.path.join(d, "result.json")
     if os.path.exists(r):
         j = json.load(open(r))
-        rows.append("| %s | %s | %s |" % (os.path.basename(d), j.get("property"), ", ".join("%s (%s)" % (k, "; ".join(v[:2])) for k, v in sorted(j.get("caught_by", {}).items())) or "patch does not apply to HEAD (superseded by a later fix touching the same lines)"))
+        rows.append("| %s | %s | %s |" % (os.path.basename(d), j.get("property"), ", ".join("%s (%s)" % (k, "; ".join(v[:2])) for k, v in sorted(j.get("caught_by", {}).items())) or "-"))
+
+rows.append("\n### Hand-written mutants from the properties' hints (mutants/hint-*)\n")
+rows.append("One textual replacement each (tools/make_hint_mutants.py). 'suite fails' = the existing tests already notice it, so it is not a change the checks are needed for (kept for the record). 'equivalent' = on inspection the change cannot alter anything a given property talks about.\n")
+rows.append("| mutant | what | existing suite | caught by own check | all checks that caught it | note |\n|---|---|---|---|---|---|")
+notes = {
+ "hint-C03-chunk-crlf-dropped-when-exact": "equivalent: write_chunk sizes the chunk so that the CRLF always fits",
+ "hint-C07-find-crlf-first-cr-only": "equivalent on valid codings (differs only for a bare CR inside an extension or trailer, which the grammar forbids); no panic or over-read on hostile input either",
+ "hint-C10-has-key-only": "a five-letter Connection token other than close; caught after 'some other token' values were added to C10",
+ "hint-C11-late-100-flag-not-cleared": "needs two late 100 responses; caught after C11 got the repeated-100 scenario",
+ "hint-C12-sanity-check-removed": "equivalent for C12: no clause requires the limit, longer size lines still parse or error without panic",
+ "hint-C14-fragment-kept": "deliberately harmless variant (fragment stripped before instead of after resolution): nothing must fire",
+ "hint-C18-tail-lt": "equivalent: remaining == 8 gives tail 0 either way",
+ "hint-C19-max-chunk-dropped": "equivalent for the properties: larger chunks are still a valid coding, fit and make progress",
+ "hint-C01-dechunk-crlf-early": "invalid (suite fails); C07 reports it",
+}
+for d in sorted(glob.glob("/verif/mutants/hint-*")):
+    r = os.path.join(d, "result.json")
+    if not os.path.exists(r):
+        continue
+    j = json.load(open(r)); m = json.load(open(os.path.join(d, "meta.json")))
+    ok = j.get("confirm", "").startswith("ok")
+    rows.append("| %s | %s | %s | %s | %s | %s |" % (os.path.basename(d), m.get("summary", ""), "passes" if ok else "suite fails", "yes" if j.get("caught_by_own_property_check") else "no", ", ".join(sorted(j.get("caught_by", {}))) or "-", notes.get(os.path.basename(d), "")))
 
 rows.append("\n### Independent seeded changes (seeded/), two per property\n")
 rows.append("| seed | what it changes | needs | caught by own check | all checks that caught it |\n|---|---|---|---|---|")
